@@ -869,28 +869,27 @@ def _skip_event(*events, **kwargs):
     changed = kwargs.get('changed')
     if changed is None:
         return False
+    differs = False
     for e in events:
         subpaths = _subpaths(e, what, changed)
         if subpaths is None:
             return False
         # (an event that waited for the end of a batch knows what was
         # reached through the previous subobject when it was replaced
-        # and through the new one when it was attached: what changed on it
-        # since is announced by its own watchers)
+        # and through the new one when it was attached)
         before = getattr(e, 'reached', None) or {}
         after = getattr(e, 'entered', None) or {}
         for p, what in subpaths:
             old = before[(p, what)] if (p, what) in before else _reached(e.old, p, what)
             new = _reached(e.new, p, what)
-            if (p, what) in after:
-                if after[(p, what)] is not new and not Comparator.is_equal(after[(p, what)], new):
-                    # changed since the object was attached: its own
-                    # watchers have announced that (or will)
-                    continue
-                new = after[(p, what)]
+            if (p, what) in after and after[(p, what)] is not new and not Comparator.is_equal(after[(p, what)], new):
+                # changed since the object was attached: its own watchers
+                # have announced that (or will), and the method sees
+                # everything there is to see when it runs for them
+                return True
             if not Comparator.is_equal(old, new):
-                return False
-    return True
+                differs = True
+    return not differs
 
 
 def extract_dependencies(function):
@@ -1846,7 +1845,8 @@ class Parameter(_ParameterBase):
         if compared and obj.param._BATCH_WATCH:
             # The methods depending on something reached through the object
             # being replaced are told at the end of the batch: what is
-            # reached now, on the sub-paths their watchers compared
+            # reached now, on the sub-paths their watchers compared (their
+            # dependencies follow the new object already)
             reached, entered = {}, {}
             for path in compared:
                 try:
@@ -3301,14 +3301,19 @@ class Parameters:
                 # A method depending on something reached through the
                 # object being replaced: whether that changes is judged at
                 # the end of the batch, against what is reached now
+                # (a method of this very object: Parameter.__set__ has set up
+                # its dependencies again before dispatching)
+                own = getattr(keywords.get('function'), '__self__', None) is self_.self_or_cls
                 for p, what in _subpaths(event, keywords.get('what', 'value'), keywords['changed']) or []:
-                    if (p, what) in reached:
-                        continue
-                    # (the dependencies of the method follow the new object
-                    # only when the event is delivered: what changes on it
-                    # until then is not announced, nothing is recorded of it)
+                    # (unless they were set up again already, the
+                    # dependencies of the method follow the new object only
+                    # when the event is delivered: what changes on it until
+                    # then is not announced, nothing is recorded of it)
                     try:
-                        reached[(p, what)] = _reached(event.old, p, what)
+                        if (p, what) not in reached:
+                            reached[(p, what)] = _reached(event.old, p, what)
+                        if own and (p, what) not in entered:
+                            entered[(p, what)] = _reached(event.new, p, what)
                     except Exception:
                         pass
             self_._events.append(_QueuedEvent.of(event, reached, watcher, entered))
